@@ -7,6 +7,7 @@ package main
 // result cfg-rejected                                   (validation refused the configuration)
 //        <n> (<res> <status>)… <stability>
 //          res       pass|collapse|discard|hold|break|undef<k>|-      (ActionResult of Do; - when Do did not return)
+//                    t:<the same>                                      (result for a time-out event: only t:discard is safe)
 //          status    ok | skip:undecodable | skip:no-timeout | skip:after-panic
 //                    | badjson:<insane|std|both|propagated|spawned>   (std: only for events that came in valid for encoding/json)
 //                    | encpanic:<kind>                                 (Encode of the event panicked: corrupt tree)
@@ -499,9 +500,9 @@ func c13MakeEvent(name string, e c13Ev, i int) (*pipeline.Event, bool) {
 	return ev, true
 }
 
-// plugins that can be sent a time-out event: those that ever answer Collapse or Hold
-// (processor.processEvent hands the time-out to the busy action; Spawn to every busy action).
-// All of them answer Discard to it, so no later action ever sees a time-out event.
+// plugins that are known to hold / collapse events (the generator aims time-out events at them; exec
+// delivers a time-out to ANY plugin that is busy at that point of the sequence). Source fact
+// holding-plugins-get-timeouts keeps the list in step with the code.
 var c13Busyable = map[string]bool{"join": true, "join_template": true, "parse_es": true, "k8s-multiline": true}
 
 type c13Sent struct {
@@ -527,7 +528,9 @@ func c13RunSeq(name string, cfgJSON []byte, ps c13PS, evs []c13Ev) string {
 			sb.WriteString(" - skip:undecodable")
 			continue
 		}
-		if e.kind == 'T' && !(c13Busyable[name] && busy) {
+		// a time-out event is sent to whichever action is busy (answered Collapse / Hold and has not
+		// passed / discarded / propagated since): processor.processEvent, timeoutAction, Spawn
+		if e.kind == 'T' && !busy {
 			sb.WriteString(" - skip:no-timeout")
 			continue
 		}
@@ -564,6 +567,12 @@ func c13RunSeq(name string, cfgJSON []byte, ps c13PS, evs []c13Ev) string {
 		}
 		if inst.ctl.resetBus && res != "collapse" && res != "hold" {
 			busy = false
+		}
+		if e.kind == 'T' {
+			// results of a time-out event are reported apart: only Discard keeps the document-less
+			// event (Root == nil) from being forwarded (Pass: next actions, Break: output), kept
+			// (Hold: a later Propagate) or from pinning the processor to the silent stream (Collapse)
+			res = "t:" + res
 		}
 		st = "ok"
 		var enc []byte
